@@ -4,7 +4,7 @@
    the whole committee's execution; leader rotation.  The recovery claim from every reachable state
    (first sentence) is kept visible as a statement; it is explored, not proved (DESIGN.md). *)
 From Coq Require Import List NArith ZArith Bool.
-From SSV Require Import Qbft.Model Qbft.Controller Qbft.Liveness Qbft.SyncRound Qbft.SyncGeneric.
+From SSV Require Import Qbft.Model Qbft.Controller Qbft.Liveness Qbft.SyncRound Qbft.SyncGeneric Qbft.RecoverGeneric.
 Import ListNotations.
 Local Open Scope N_scope.
 
@@ -97,6 +97,40 @@ Proof.
     repeat (constructor; [intros H; simpl in H; repeat (destruct H as [H|H]; [discriminate H|]); exact H|]).
     constructor.
   - vm_compute. intros H. repeat (destruct H as [H|H]; [discriminate H|]). exact H.
+Qed.
+
+(* First sentence, one continuation proved for every committee: recovery from a silent first round.
+   Nothing of round 1 was delivered (the leader is silent, or its proposal is lost); the operators of
+   [live] - at least a quorum, the leader of round 2 among them, everybody else silent - time out,
+   exchange round changes, the leader proposes its own start value justified by the first quorum of
+   round changes, and with timely delivery of prepares and commits every live operator decides that
+   value in round 2, i.e. within ONE further round.  [recover_bcasts] says that what each operator
+   broadcasts is exactly what the schedule [recover_ops] delivers. *)
+Theorem C07_recovery_from_silent_round : forall (c : cfg) (h ld1 ld2 : N) (live : list N),
+  ~ In 0 (committee c) -> NoDup live -> (forall y, In y live -> In y (committee c)) ->
+  proposer c h FIRST_ROUND = Some ld1 -> proposer c h R2 = Some ld2 -> In ld2 live ->
+  value_check c (start_value ld2) = true ->
+  1 <= quorum c -> quorum c <= N.of_nat (length live) -> 1 <= partial_quorum c ->
+  forall i, In i live ->
+  exists s bs,
+    run (with_me c i) (new_instance h) (recover_ops c h ld2 live i) = (s, bs) /\
+    s_decided s = true /\ s_dvalue s = start_value ld2 /\ s_round s = R2 /\
+    bcasts bs = recover_bcasts c h ld1 ld2 live i.
+Proof. exact recover_silent_round. Qed.
+Print Assumptions C07_recovery_from_silent_round.
+
+(* the hypotheses are satisfiable: 4 operators at height 0, operator 1 (leader of round 1) silent *)
+Example C07_recovery_example :
+  let c := sync_cfg 4 in
+  ~ In 0 (committee c) /\ NoDup [2; 3; 4] /\ (forall y, In y [2; 3; 4] -> In y (committee c)) /\
+  proposer c 0 FIRST_ROUND = Some 1 /\ proposer c 0 R2 = Some 2 /\
+  value_check c (start_value 2) = true /\ quorum c = 3 /\ partial_quorum c = 2.
+Proof.
+  cbv zeta. repeat split; try (vm_compute; reflexivity).
+  - vm_compute. intros H. repeat (destruct H as [H|H]; [discriminate H|]). exact H.
+  - repeat (constructor; [intros H; simpl in H; repeat (destruct H as [H|H]; [discriminate H|]); exact H|]).
+    constructor.
+  - intros y Hy. vm_compute. simpl in Hy. tauto.
 Qed.
 
 (* Recovery from every reachable state within f+3 rounds: stated in DESIGN.md (C07_recovery); it needs
